@@ -48,15 +48,18 @@ class C05(Check):
                   suppress_health_check=list(HealthCheck), report_multiple_bugs=False)
         @given(gens_rich.rich_grammar(nrules=4, depth=3), st.data())
         def prop(g, data):
-            if runner.time_left() < 0:
-                res.truncated = True
-                return
             entries = [e for e in gens_rich.entry_points(g) if e[0] in 'RKsF']
-            diff.eval_grammar(res, g, entries, inputs_for(data, st), nontrivial, 'c05')
+            ins = inputs_for(data, st)
+            if runner.over_budget(res):
+                return
+            diff.eval_grammar(res, g, entries, ins, nontrivial, 'c05')
             res.hist['grammars'] += 1
             for k in peg.kinds(g):
                 res.hist['kind_' + k] += 1
-        prop()
+        try:
+            prop()
+        except runner.StopTask:
+            pass
         return res
 
     def replay(self, case):
